@@ -611,6 +611,32 @@ def rule_h(ck, u, so, ub):
                 bad = 'driver context not stored'
         ck.verdict(bad is None, 'C17.h', fn, cast.where(u.fn(fn)),
                    'sets kind, the matching union member and the driver context' if bad is None else bad)
+    # static initialiser macros: the same agreement for endpoints that are never passed through a constructor
+    src_ = ('#include <ufw/endpoints.h>\n'
+            'static int vp_os_f(void *d, void *b) { (void)d; (void)b; return 0; }\n'
+            'static ssize_t vp_cs_f(void *d, void *b, size_t n) { (void)d; (void)b; (void)n; return 0; }\n'
+            'static int vp_ok_f(void *d, unsigned char b) { (void)d; (void)b; return 0; }\n'
+            'static ssize_t vp_ck_f(void *d, const void *b, size_t n) { (void)d; (void)b; (void)n; return 0; }\n'
+            'static int vp_drv;\n'
+            'Source vp_os = OCTET_SOURCE_INIT(vp_os_f, &vp_drv);\nSource vp_cs = CHUNK_SOURCE_INIT(vp_cs_f, &vp_drv);\n'
+            'Sink vp_ok = OCTET_SINK_INIT(vp_ok_f, &vp_drv);\nSink vp_ck = CHUNK_SINK_INIT(vp_ck_f, &vp_drv);\n')
+    try:
+        pu = cast.load(UNIT, source_text=src_)
+    except Exception as e:
+        pu = None
+        ck.broken('C17.h', 'initialiser-macros', 'include/ufw/endpoints.h', 'probe failed: %s' % e)
+    if pu is not None:
+        for var, macro, un, member, kindv, cb in (('vp_os', 'OCTET_SOURCE_INIT', 'source', 'octet', OCT, 'vp_os_f'), ('vp_cs', 'CHUNK_SOURCE_INIT', 'source', 'chunk', CHK, 'vp_cs_f'),
+                                                  ('vp_ok', 'OCTET_SINK_INIT', 'sink', 'octet', OCT, 'vp_ok_f'), ('vp_ck', 'CHUNK_SINK_INIT', 'sink', 'chunk', CHK, 'vp_ck_f')):
+            f = cast.init_fields(pu, var)
+            if not f:
+                ck.broken('C17.h', macro, 'include/ufw/endpoints.h', 'initialiser not understood')
+                continue
+            members = {k: v for k, v in f.items() if k.startswith(un + '.')}
+            okm = f.get('kind') == kindv and members == {'%s.%s' % (un, member): ('ref', cb)} and f.get('driver') == ('ref', 'vp_drv')
+            ck.verdict(okm, 'C17.h', macro, 'include/ufw/endpoints.h',
+                       '%s sets kind, the .%s.%s member and the driver context' % (macro, un, member) if okm else
+                       '%s yields %s: kind and driver member do not match (the dispatcher calls the callback through the wrong function-pointer type)' % (macro, f))
     # uses
     nuse = 0
     for fn in sorted(u.functions):
